@@ -155,6 +155,17 @@ def check_F2(ctx, facts, cfg):
         # nothing else is appended after the trailer
         later = [t for b, t in wc if b in w.reachable_from([eb]) and b != eb and cname(t) and ('extend' in cname(t) or 'push' in cname(t))]
         good = good and not later
+    if ext and inner:
+        buf = inner[0][1]['dest']['l']
+        muts = []
+        for b, t in wc:
+            if cname(t) and re.search(r'AlignedVec::(extend_from_slice|push|resize|reserve_exact|set_len|extend|truncate|clear|insert)$|Extend::extend$', cname(t)) \
+                    and t['args'] and buf in (referent_roots(w, op_local(t['args'][0])) | wf.backward([op_local(t['args'][0])])) and w.dominates(inner[0][0], b):
+                muts.append((t['cs'], last_seg(cname(t))))
+        ctx.ob('C12.F2', cfg + '|writer-only-appends-trailer', len(muts) == 1, site(w),
+               'after serialisation the buffer is modified exactly once: the trailer append' if len(muts) == 1 else
+               'after serialisation the buffer is modified %d times (%s): bytes other than the trailer follow the archived root, but the reader takes the root '
+               'from the end of everything before the trailer — the value observed differs from the one sent' % (len(muts), muts))
     ctx.ob('C12.F2', cfg + '|writer-order', bool(good), site(w),
            'writer: serialise -> into_inner -> hash(buffer) -> append encoded hash, nothing appended afterwards' if good else
            'writer does not append exactly hash(finished buffer) as the last bytes')
